@@ -665,6 +665,11 @@ impl Task {
                             || iter.state().is_abort()
                     }) {
                         self.set_state(TaskState::Skipped);
+
+                        // let the others know the state change
+                        if let Some(task) = self.proc.task(&self.id) {
+                            let _ = self.runtime.scher().emit_task_event(&task);
+                        }
                     }
                 }
 
